@@ -16,7 +16,7 @@ def plan(t):
 
 
 def case(prog, params):
-    ex = H.new_executor(prog, max_block_visits=200, solver_timeout_ms=(240000 if H.tier() == 'quick' else 1500000))
+    ex = H.new_executor(prog, max_block_visits=200, solver_timeout_ms=(600000 if H.tier() == 'quick' else 1500000))
     cons = []
     res = {'violations': [], 'inconclusive': [], 'samples': [], 'kinds': {}, 'compared': 0}
     ob = params['ob']
